@@ -352,7 +352,7 @@ def earlyInput (c : Cfg) (h : Host) (s : Sys) (p : Pr) : BertE.Early.Input :=
     comments := handleComments c.reg (envFor c p) (seenComments c p)
     prs := h.prs.map (fun q => (q.id, q.status)) }
 
-def defaultPr (id : Nat) (src : String) : PrInfo := ⟨id, src, .dev 0 none⟩
+def defaultPr (id : Nat) (src : String) : PrInfo := ⟨id, src, .dev 0 none, false⟩
 
 /-- **`handle_pull_request`** for pull request `id`: the whole evaluation. `orc`: answers of git's content merges;
     `sel`: the queue selection used when the pull request is found already queued. -/
@@ -367,7 +367,8 @@ def evalPr (c : Cfg) (h : Host) (s : Sys) (id : Nat) (orc : List Bool) (sel : Li
       match BertE.Names.classify c.early.names p.src.toList,
             (BertE.Names.classify c.early.names p.dst.toList).bind destOf with
       | some src, some dst =>
-        let pr : PrInfo := ⟨p.id, p.src, dst⟩
+        -- `job.settings.no_octopus` of this evaluation: command line, or a comment of any participant (Reactor state)
+        let pr : PrInfo := ⟨p.id, p.src, dst, opt st "no_octopus"⟩
         let sent := if r.greeting then ["InitMessage"] else []
         if p.status == "DECLINED" then                                                    -- handle_declined_pull_request
           let cd := (s.targets dst).any (childOpen h p.src)
